@@ -150,7 +150,8 @@ class SYS(Prop):
                 if k == "delall":
                     return f"delete from {tgt}", None
                 if k == "mk":
-                    return f"create table {'if not exists ' if a['soft'] else ''}{tgt} (v int)", None
+                    # (each connection creates U with its own shape: one column / two columns)
+                    return f"create table {'if not exists ' if a['soft'] else ''}{tgt} ({'v int' if a['c'] == 'c1' else 'v int, w int'})", None
                 if k == "rm":
                     return f"drop table {'if exists ' if a['soft'] else ''}{tgt}", None
                 return f"select v from {tgt} order by v", None
@@ -210,11 +211,9 @@ class SYS(Prop):
                 usable = []
                 for s in ("S1", "S2"):
                     try:
-                        p.execute(f"select count(*) from db1.{phys[s]}.u")
-                        if p.fetchall() == [(0,)]:
-                            usable.append(s)
-                        else:
-                            usable.append("rows?")
+                        p.execute(f"select * from db1.{phys[s]}.u")
+                        d = p.description
+                        usable.append(f"{s}:{len(d) if d is not None else 'nodescr'}" if p.fetchall() == [] else "rows?")
                     except Exception as e:
                         if _err(e) != "err:missing":
                             usable.append(_err(e))
